@@ -97,6 +97,58 @@ def constructor_rule(ck, facts, fn, predicate_suffix, what):
     ck.ok("R9.4", "%s guarded by %s" % (what, predicate_suffix))
 
 
+def rust_unescape(lit):
+    out, i = [], 0
+    while i < len(lit):
+        c = lit[i]
+        if c != "\\":
+            out.append(c); i += 1; continue
+        n = lit[i + 1]
+        if n == "u":
+            j = lit.index("}", i)
+            out.append(chr(int(lit[i + 3:j], 16))); i = j + 1
+        elif n == "x":
+            out.append(chr(int(lit[i + 2:i + 4], 16))); i += 4
+        else:
+            out.append({"n": "\n", "r": "\r", "t": "\t", "0": "\0"}.get(n, n)); i += 2
+    return "".join(out)
+
+
+def reference_selftest(rl, facts):
+    """Membership of every example of iri/src/test.rs (POSITIVE_IRIS with their absolute flag, NEGATIVE_IRIS,
+    RELATIVE_IRIS) in the *reference* languages.  The tables are read as data (text of string literals): this judges
+    the transcription in grammars.py, so a disagreement is recorded in the evidence and never reported against /repo."""
+    import os
+    from core import REPO
+    path = os.path.join(REPO, "iri", "src", "test.rs")
+    if not os.path.exists(path):
+        return {}
+    src = open(path, encoding="utf-8").read()
+    STR = r'"((?:[^"\\]|\\.)*)"'
+    def section(name):
+        m = re.search(r"pub const %s\b[^=]*=\s*&\[(.*?)\n\];" % name, src, re.S)
+        return m.group(1) if m else ""
+    cases = []
+    for m in re.finditer(r"\(\s*" + STR + r",\s*\(\s*(true|false)", section("POSITIVE_IRIS")):
+        txt = rust_unescape(m.group(1))
+        cases.append((txt, True, "RFC_IRI_REFERENCE"))
+        cases.append((txt, m.group(2) == "true", "RFC_IRI"))
+        cases.append((txt, m.group(2) == "false", "RFC_IRELATIVE_REF"))
+    for m in re.finditer(STR, re.sub(r"(?m)^\s*//[^\n]*", "", section("NEGATIVE_IRIS"))):
+        cases.append((rust_unescape(m.group(1)), False, "RFC_IRI_REFERENCE"))
+    for m in re.finditer(r"\(\s*" + STR + r",\s*" + STR + r"\s*\)", re.sub(r"(?m)^\s*//[^\n]*", "", section("RELATIVE_IRIS"))):
+        cases.append((rust_unescape(m.group(1)), True, "RFC_IRI_REFERENCE"))
+        cases.append((rust_unescape(m.group(2)), True, "RFC_IRI"))
+    out = {}
+    for i, (txt, expect, ref) in enumerate(cases):
+        name = "SELFTEST_%d" % i
+        rl.lang(name, "^(?:" + "".join("\\x{%X}" % ord(c) for c in txt) + ")$")
+        oid = "selftest:%d" % i
+        rl.empty(oid, "& %s %s" % (name, ref), 1)
+        out[oid] = (txt, expect, ref)
+    return out
+
+
 def run(ck, facts, tier):
     facts.require_crates(["sophia_iri", "sophia_api"])
     owners = patterns_by_owner(facts, ["sophia_iri"])
@@ -147,8 +199,17 @@ def run(ck, facts, tier):
             rl.empty(oid + ".sub", "& %s & %s ! RFC_IRELATIVE_REF" % (cn, langs["is_relative_iri_ref"]), 2)
             rl.empty(oid + ".sup", "& %s & RFC_IRELATIVE_REF ! %s" % (cn, langs["is_relative_iri_ref"]), 2)
             ctxs.append(oid)
-    # reference self-test against the repository's own tables is done in selftest (see rules/selftest.py)
+    # reference self-test: the transcription is confronted with the repository's own example tables (read as data)
+    selftest = reference_selftest(rl, facts)
     linfo, res = rl.run()
+    st = dict(cases=len(selftest), disagreements=[])
+    for oid, (txt, expect_member, ref) in selftest.items():
+        r = res.pop(oid)
+        is_member = not r["empty"]
+        if is_member != expect_member:
+            st["disagreements"].append("%r is %sin %s but iri/src/test.rs lists it as %s" % (
+                txt, "" if is_member else "not ", ref, "valid" if expect_member else "invalid"))
+    ck.extra["reference_selftest"] = st      # evidence only: it judges the checker's transcription, not /repo
     for name, info in linfo.items():
         if not info.get("ok"):
             raise CheckError("language %s does not compile: %s" % (name, info.get("error")))
